@@ -327,18 +327,19 @@ example : (∀ d ∈ ([0, 1, 0, 1] : List Nat), d ≤ 1) ∧
 /-- **Real configuration, full strength.**  `sampleRealSus` = `RealSelectionConfiguration.sample_xconfig`
     with C17's model of the repaired sampler inside.  For every non-negative weight vector with positive
     sum, every shape, every tie order of `argsort`, **every offset in `[0, spacing)`** (0 included) and every
-    shuffle / exchange order the generator can deliver: the configuration meets the whole Spec
+    shuffle / exchange order the generator can deliver — the empty request `ncross = 0` included (C17's
+    theorems hold for every size since fix f1943417) —: the configuration meets the whole Spec
     (shape, only candidates of positive weight, every use count within one of the proportional share,
     exchange-optimal), and in fact every candidate is used the floor or the ceiling of its share. -/
 theorem real_xconfig (w : List ℚ) (nc np : Nat) (sigma : List Nat) (o : ℚ) (perm : List Nat)
     (orders rowperms : List (List Nat)) (rows : Rows)
-    (hv : C17.SusValid w [nc, np]) (va : ValidArrange nc np orders rowperms)
+    (hv : C17.SusValid w) (va : ValidArrange nc np orders rowperms)
     (h : sampleRealSus w nc np sigma o perm orders rowperms = .ok rows) :
     specContribution w nc np rows = true ∧
       ∀ i (hi : i < w.length),
         (rows.flatten.count i : ℤ) = ⌊((nc * np : ℕ) : ℚ) * w[i] / Np.sum w⌋ ∨
         (rows.flatten.count i : ℤ) = ⌈((nc * np : ℕ) : ℚ) * w[i] / Np.sum w⌉ := by
-  obtain ⟨hnn, hT, _⟩ := hv
+  obtain ⟨hnn, hT⟩ := hv
   obtain ⟨sel, hs, hr⟩ := sampleRealSus_split h
   have hlen : sel.length = nc * np := by
     rw [C17.sus_length w [nc, np] sigma perm sel o hs, prod_pair]
@@ -364,10 +365,10 @@ theorem real_xconfig (w : List ℚ) (nc np : Nat) (sigma : List Nat) (o : ℚ) (
     terminates, for every valid input and every draw. -/
 theorem real_sampling_total (w : List ℚ) (nc np : Nat) (sigma : List Nat) (o : ℚ) (perm : List Nat)
     (orders rowperms : List (List Nat))
-    (hv : C17.SusValid w [nc, np]) (ho : C17.SusOracle w [nc, np] sigma o perm)
+    (hv : C17.SusValid w) (ho : C17.SusOracle w [nc, np] sigma o perm)
     (hn : nc * np < orders.length) :
     ∃ rows, sampleRealSus w nc np sigma o perm orders rowperms = .ok rows := by
-  obtain ⟨sel, hs, hl⟩ := C17.sus_returns_requested_number_partial w [nc, np] sigma perm o hv ho
+  obtain ⟨sel, hs, hl⟩ := C17.sus_returns_requested_number w [nc, np] sigma perm o hv ho
   rw [prod_pair] at hl
   obtain ⟨rows, hr⟩ := arrange_ok (rowperms := rowperms) hl hn
   refine ⟨rows, ?_⟩
@@ -381,12 +382,18 @@ theorem real_sampling_total (w : List ℚ) (nc np : Nat) (sigma : List Nat) (o :
 -- non-vacuity: weights (1/2, 0, 1/4, 1/4) on 2×2 slots, offset 1/16 of a spacing 1/4; and offset exactly 0
 example : sampleRealSus ([1/2, 0, 1/4, 1/4] : List ℚ) 2 2 [0, 3, 2, 1] (1/16) [2, 0, 3, 1]
     [[0, 1, 2, 3, 4, 5], [0, 1, 2, 3, 4, 5]] [[0, 1], [1, 0]] = .ok [[3, 0], [0, 2]] := by decide +kernel
-example : C17.SusValid ([1/2, 0, 1/4, 1/4] : List ℚ) [2, 2] ∧
+example : C17.SusValid ([1/2, 0, 1/4, 1/4] : List ℚ) ∧
     C17.SusOracle ([1/2, 0, 1/4, 1/4] : List ℚ) [2, 2] [0, 3, 2, 1] (1/16) [2, 0, 3, 1] ∧
     C17.SusOracle ([1/2, 0, 1/4, 1/4] : List ℚ) [2, 2] [0, 3, 2, 1] 0 [2, 0, 3, 1] := by
   unfold C17.SusValid C17.SusOracle
-  refine ⟨⟨by decide +kernel, by decide +kernel, by decide⟩, ⟨by decide, by decide +kernel, by decide +kernel, by decide +kernel, by decide⟩,
-    ⟨by decide, by decide +kernel, by decide +kernel, by decide +kernel, by decide⟩⟩
+  refine ⟨⟨by decide +kernel, by decide +kernel⟩,
+    ⟨by decide, by decide +kernel, fun _ => ⟨by decide +kernel, by decide +kernel⟩, by decide⟩,
+    ⟨by decide, by decide +kernel, fun _ => ⟨by decide +kernel, by decide +kernel⟩, by decide⟩⟩
+-- the empty request (ncross = 0) is covered as well: no draw, empty configuration
+example : sampleRealSus ([1/2, 0, 1/4, 1/4] : List ℚ) 0 2 [0, 3, 2, 1] 0 [] [[]] [] = .ok [] ∧
+    C17.SusOracle ([1/2, 0, 1/4, 1/4] : List ℚ) [0, 2] [0, 3, 2, 1] 0 [] := by
+  unfold C17.SusOracle
+  exact ⟨by decide +kernel, by decide, by decide +kernel, fun h => absurd h (by decide), by decide⟩
 -- a sampler result of the wrong length (what the sampler returned before fix fc545079 when the offset
 -- was within ulps of the spacing, D7) is the code's reshape `ValueError`
 example : sampleReal [2, 1] 3 1 [] [[0], [0], [0]] = .error "value" := by decide
@@ -660,14 +667,14 @@ theorem mate_integer_xconfig (decn : List Nat) (xmap : Rows) (nc : Nat) (rem per
     the floor or the ceiling of its share `ncross·w_d/Σw` — for every offset, 0 included. -/
 theorem mate_real_xconfig (w : List ℚ) (xmap : Rows) (nc : Nat) (sigma : List Nat) (o : ℚ)
     (perm perm2 : List Nat) (rows : Rows)
-    (hv : C17.SusValid w [nc]) (hp2 : perm2.Perm (List.range nc))
+    (hv : C17.SusValid w) (hp2 : perm2.Perm (List.range nc))
     (h : sampleMateRealSus w xmap nc sigma o perm perm2 = .ok rows) :
     ∃ out : List Nat, rows = out.map (fun d => xmap.getD d []) ∧ out.length = nc ∧
       (∀ d ∈ out, d < xmap.length ∧ ∃ hd : d < w.length, 0 < w[d]) ∧
       ∀ d (hd : d < w.length),
         (out.count d : ℤ) = ⌊((nc : ℕ) : ℚ) * w[d] / Np.sum w⌋ ∨
         (out.count d : ℤ) = ⌈((nc : ℕ) : ℚ) * w[d] / Np.sum w⌉ := by
-  obtain ⟨hnn, hT, _⟩ := hv
+  obtain ⟨hnn, hT⟩ := hv
   obtain ⟨sel, hs, hr⟩ := sampleMateRealSus_split h
   have hlen : sel.length = nc := by rw [C17.sus_length w [nc] sigma perm sel o hs, prod_single]
   obtain ⟨out, hperm, e1, e2⟩ := sampleMateReal_lookup sel xmap nc perm2 rows hlen hp2 hr
